@@ -214,6 +214,23 @@ def check(rep, F, tier, replay=None):
             rep.violation("SIB-refsize", "MintBuilder|%s" % ",".join(sorted(vb - va)), "MintBuilder::get_ref_inputs puts the reference input of a %s mint script into the body, but get_script_ref_inputs_with_size does not report its size: the reference-script fee for that script is missing from min_fee" % "/".join(sorted(vb - va)), {})
     else:
         rep.lost("MintBuilder reference-input functions not found")
+    # REFSIZE-all: every source entry of a reference script is added to the total
+    import hirq as H_
+    from ruleutil import hir_must as _must
+    rep.rule("REFSIZE-all", "in TransactionBuilder::get_total_ref_scripts_size every loop over a source of reference scripts (sub-builders, explicit reference inputs, inputs carrying a script) hands each entry to add_to_map on every path of the iteration - no conditional skip: the ledger charges the reference-script fee over inputs and reference inputs together, whether or not the body lists an input twice")
+    fid_ = find_fn(rep, F, "TransactionBuilder::get_total_ref_scripts_size")
+    if fid_ and fid_ in F.hir:
+        loops_ = [n_ for n_ in H_.walk(F.hir[fid_]["body"]) if n_[0] == "for"]
+        n_l = 0
+        for lp in loops_:
+            n_l += 1
+            rep.inst("REFSIZE-all")
+
+            def ev_(x):
+                return x[0] == "call" and (H_.path_str(x[3]) == "add_to_map" or (x[2] or "").endswith("add_to_map"))
+            if not _must(lp[4], ev_):
+                rep.violation("REFSIZE-all", "get_total_ref_scripts_size|%s" % (H_.path_str(H_.strip(lp[3])) or "loop"), "get_total_ref_scripts_size can finish an iteration over %s without adding the entry's script size: a reference script held by a UTxO that is both an explicit reference input and a regular input is left out of the tiered reference-script fee (fee 167 437 instead of 227 261 for 4 000 bytes)" % (H_.path_str(H_.strip(lp[3])) or "a source"), {})
+        rep.floor("reference-script source loops", 2, n_l)
     from ruleutil import boot_attr_rule
     boot_attr_rule(rep, F)
     return rep.finish(
